@@ -305,7 +305,13 @@ def run(ctx):
                 if state["bad"] is None and (got[0] != want[0] or (got[0] == "ok" and core.canon(got[1]) != core.canon(want[1]))
                                              or (got[0] == "err" and got[1] != want[1])):
                     state["bad"] = (k, op, core.canon(list(got)), core.canon(list(want)))
-            r = tie.run_program(img, ops, mount=dict(encoding="ibm437"), model=m, on_step=on_step)
+            # the volume at an offset of its device in three runs of five — a cluster or two, or the classic 63 sectors: positions of the DEVICE and addresses
+            # in the VOLUME differ by it (C02-m10: "skip the redundant seek" compared the device position with the volume address — the
+            # cluster one or two further on was read when a chain advanced by just that much, as interleaved writes make it)
+            off = [0, info["bpc"], 0, 63 * 512, 2 * info["bpc"]][(i // len(vols) + i % len(vols)) % 5]
+            ctx.dist[f"offset:{'0' if not off else 'bpc' if off == info['bpc'] else '2bpc' if off == 2 * info['bpc'] else off}"] += 1
+            rep["mount_offset"] = off
+            r = tie.run_program(img, ops, mount=dict(encoding="ibm437", offset=off), model=m, on_step=on_step)
             ctx.traces += 1
             if state["bad"]:
                 k, op, got, want = state["bad"]
